@@ -380,6 +380,8 @@ def program(rng, pid, ssa=None, shape=None, features=None):
             if v is None:
                 return alias()
             out = [mkref(v)]
+            if rng.random() < 0.4:  # as in tests/domains/region/*.cc: malloc succeeded
+                out.append({"op": "rassume", "c": rc("gt", v)})
             if rng.random() < 0.6:
                 out += store(v)
             return out
@@ -501,6 +503,8 @@ def program(rng, pid, ssa=None, shape=None, features=None):
                 pass  # allocated in the loop body only
             elif ctr["cells"] + (len(layoutA) if c == 1 else 1) <= ctr["budget"]:
                 init.append(mkref(v))
+                if rng.random() < 0.4:
+                    init.append({"op": "rassume", "c": rc("gt", v)})
             else:
                 MK.discard(v)
                 set_ref(v, "null", None, None, [])
@@ -510,6 +514,8 @@ def program(rng, pid, ssa=None, shape=None, features=None):
             init.append({"op": "rnull", "x": v, "hv": 0})
         elif not ssa and (first or r < 0.5 or c == 3) and can_mk(v):
             init.append(mkref(v))
+            if rng.random() < 0.4:
+                init.append({"op": "rassume", "c": rc("gt", v)})
         elif r < 0.65:
             set_ref(v, "null", None, None, [])
             init.append({"op": "rnull", "x": v, "hv": rng.choice([0, 0, 1])})
@@ -551,7 +557,7 @@ def program(rng, pid, ssa=None, shape=None, features=None):
                 blocks[e - 1]["stmts"].append({"op": "rselect", "x": v, "xr": rg, "c": rng.choice(BOOLS), "y": 0, "yr": 0, "z": v, "zr": rg,
                                                "cls": ref_cls[v]})
                 G["nn"][v] = "maybe"
-            gt, gf = {"op": "rassume", "c": rc("eq", v)}, {"op": "rassume", "c": rc("ne", v)}
+            gt, gf = {"op": "rassume", "c": rc("eq", v)}, {"op": "rassume", "c": rc(rng.choice(["ne", "gt"]), v)}
             Gt, Gf = copy.deepcopy(G), copy.deepcopy(G)
             Gt["nn"][v], Gf["nn"][v] = "null", "nn"
         else:
